@@ -570,6 +570,10 @@ def iirfilter(fs, N, Wn, rp, rs, btype, ftype, target):
     zo = zi * y[..., :1]
 
     while True:
+        if y.shape[-1] == 0:
+            # lfilter returns an undefined final state for an empty input
+            y = (yield)
+            continue
         y_filt, zo = signal.lfilter(b, a, y, zi=zo, axis=-1)
         if isinstance(y, PipelineData):
             y_filt = PipelineData(y_filt, y.fs, y.s0, y.channel, y.metadata)
@@ -949,6 +953,10 @@ def decimate(q, target):
 
     y_remainder = None
     while True:
+        if y.shape[-1] == 0:
+            # lfilter returns an undefined final state for an empty input
+            y = (yield)
+            continue
         y_filt, zf = signal.lfilter(b, a, y, zi=zf, axis=-1)
         if isinstance(y, PipelineData):
             y_filt = PipelineData(y_filt, y.fs, y.s0, y.channel, y.metadata)
